@@ -132,6 +132,42 @@ def runtime_tokens(tier, seed):
         add('p', '%d.%s' % (a, b))
     for t in ('.5', '5.', '0.5', '1.50', "1'0.2'5", '10.0', '00.5', '-1.5', '+.5', '-10.25', '-5.', '+5.', '-0.', '-12.'):
         add('p', t)
+    # tokens ending in the radix point, unsigned and with either sign (repaired class signed_trailing_radix_point): every
+    # chunk-relevant length, with separators, with a leading zero; and the same written with the prefix of the other three
+    # bases (a radix point makes the token decimal: `0x1f.` is malformed, `017.` is the decimal 17 — both sides must agree)
+    for n in sorted({1, 2, 3, 17, 18, 19, 35, 36, 37, rnd.randrange(4, 60), rnd.randrange(4, 60)}):
+        body = ''.join(DIGITS[rnd.randrange(1 if i == 0 else 0, 10)] for i in range(n))
+        forms = [body, '0' + body]
+        if n > 1:
+            forms.append(with_sep(body, 10, rnd.randrange(1, n)))
+        for f in forms:
+            for sign in ('', '-', '+'):
+                add('p', sign + f + '.')
+    for base in (16, 8, 2):
+        for n in (1, 2, STRIDE[base], STRIDE[base] + 1, rnd.randrange(3, 40)):
+            body = ''.join(DIGITS[rnd.randrange(1 if i == 0 else 0, base)] for i in range(n))
+            for sign in ('', '-', '+'):
+                add('p', sign + PREFIX[base] + body + '.')
+                add('p', sign + PREFIX[base] + body + '.5')
+    # signed fractions: the scanner's fractional-digit count is right for them too now
+    for _ in range(20 if tier == 'quick' else 100):
+        a = rnd.randrange(0, 10 ** rnd.randrange(1, 20))
+        b = ''.join(rnd.choice('0123456789') for _ in range(rnd.randrange(1, 20)))
+        add('p', '%s%d.%s' % (rnd.choice('+-'), a, b))
+    # octal tokens with a separator directly after the leading 0 (repaired class octal_separator_after_prefix)
+    for t in ("0'7", "0'17", "0'0", "0'1'7", "0'00", "0'777'777", "0'" + '7' * 20, "0'" + '7' * 21, "0'" + '7' * 22, "0'3" + '7' * 41,
+              "0'1" + '0' * 42, "0'" + "7'" * 30 + '7'):
+        for sign in ('', '-', '+'):
+            add('p', sign + t)
+    for _ in range(12 if tier == 'quick' else 60):
+        n = rnd.choice([1, 2, 3, 20, 21, 22, 42, 43, rnd.randrange(1, 80)])
+        body = ''.join(DIGITS[rnd.randrange(8)] for _ in range(n))
+        t = "0'" + body
+        if n > 2 and rnd.random() < 0.5:
+            q = rnd.randrange(1, n)
+            t = "0'" + body[:q] + "'" + body[q:]
+        for sign in ('', '-', '+'):
+            add('p', sign + t)
     # width estimate for every decimal length (scan only)
     nmax = 1200 if tier == 'quick' else 3000
     for n in range(1, nmax + 1):
@@ -198,6 +234,23 @@ def literal_cases(tier, seed):
         add('cnl2', t)
     add('c', '1.5')
     add('wide', '1.5')
+    # octal literals with a separator directly after the leading 0 (repaired class octal_separator_after_prefix)
+    octs = ["0'17", "0'0", "0'1'7", "0'777'777", "0'" + '7' * 21, "0'3" + '7' * 41, "0'" + '7' * 42]
+    for _ in range(4 if tier == 'quick' else 20):
+        n = rnd.choice([1, 2, 20, 21, 22, 42, rnd.randrange(1, 43)])
+        octs.append("0'" + ''.join(DIGITS[rnd.randrange(8)] for _ in range(n)))
+    for t in octs:
+        for kind in ('c', 'wide', 'cnl', 'cnl2'):
+            add(kind, t)
+    add('wide', "0'" + '7' * 60)
+    # a fractional part on a value that is a multiple of the output radix (repaired class udl_round_integer_with_fraction)
+    for _ in range(10 if tier == 'quick' else 60):
+        a = rnd.randrange(1, 10 ** rnd.randrange(1, 12)) * 10 ** rnd.randrange(1, 6)
+        z = '0' * rnd.randrange(1, 6)
+        add('cnl', '%d.%s' % (a, z))
+        add('cnl2', '%d.%s' % (a, z))
+        add('cnl', '%d.%s' % (a, rnd.choice('123456789') + z))
+        add('cnl2', '%d.%s' % (2 * rnd.randrange(1, 1000), rnd.choice(['5', '50', '25', '250', '500', '0', '00'])))
     # seeded: every kind, random lengths/bases/leading digits
     n_seeded = 60 if tier == 'quick' else 400
     for _ in range(n_seeded):
@@ -229,6 +282,9 @@ def constant_values(tier, seed):
         for d in (-1, 0, 1):
             vs.append((1 << k) + d)
             vs.append(-((1 << k) + d))
+    # negative powers of two (repaired class static_negative_power_of_two): through every make_* helper, see MK
+    for k in sorted({0, 1, 2, 4, 5, 29, 30, 32, 33, 61, 62, 64, 65, 95, 125} | set(rnd.sample(range(0, 127), 8 if tier == 'quick' else 40))):
+        vs.append(-(1 << k))
     for _ in range(10 if tier == 'quick' else 60):
         w = rnd.randrange(2, 120)
         pat = rnd.choice([int('5' * 32, 16), int('a' * 32, 16), rnd.getrandbits(128)]) & ((1 << w) - 1)
@@ -377,7 +433,9 @@ def tus(tier, seed):
 RULE = ("run time: tokens of every length 1..80 (thorough 130) per base x leading digit {1, base/2-1, base/2, base-1} x fill {zeros, max digit, random}, "
         "both signs, a separator at every position of chunk-boundary lengths, 2^k and 2^k+-1 for k < 270 in every base, fed to scan_string and "
         "parse<T> for seven result types; the width estimate for every decimal length 1..1200; compile time: generated literals of all four kinds "
-        "(fixed corner lengths 19, 38/39, 125, 202, 308 and X0.Y tokens always present) and make_* on boundary constants; non-trivial = well-formed "
+        "(fixed corner lengths 19, 38/39, 125, 202, 308, X0.Y tokens and 0'… octal tokens always present) and make_* on boundary constants "
+        "(every run: 25+ negative powers of two through all five helpers); run-time tokens ending in the radix point with either sign and "
+        "0'… octal tokens of every chunk-relevant length in every run; non-trivial = well-formed "
         "token whose value the result type can hold (distinct lines)")
 TRUSTED = ["g++ -fsyntax-only outcome of one-literal TUs as the observable REJECTED (classified by harness/props/C15.py)"]
 ASSUMPTIONS = ["literal tokens carry no sign (the language never passes one to a literal operator)",
